@@ -1,5 +1,6 @@
 import Iauthd.Proto.Props
 import Iauthd.Addr.ProofsMask
+import Iauthd.Properties.C17
 /-
   Property C11 — "Class rules: the first matching rule in name order decides" (model part).
   `fnmatch(…, 0)` is the modelled `glob` (subset `* ? \c` and literals; trusted to agree with
@@ -33,5 +34,57 @@ theorem C11_criteria (svcs : List (Option Svc)) (rule : Rule) (r : Req) :
 /-- the class buffer keeps at most CLASSLEN - 1 bytes -/
 theorem C11_class_len (n : Nat) (s : Bytes) : (strlcpyN n s).length ≤ n - 1 := by
   unfold strlcpyN; simp [List.length_take]; omega
+
+/-! ### the rules in force are the last file's -/
+
+theorem ruleMatches_kernel (svcs : List (Option Svc)) (q : Rule) (r : Req) :
+    ruleMatches svcs (kernelR q) r = ruleMatches svcs q r := rfl
+
+/-- **C11 over a whole session**: start the daemon (with the class module) on any file, let any
+    histories of input and timer expiries and any reloads go by.  Whenever a client is then put to the
+    rule table, the first rule *of the last file loaded* - in the order of the configuration set -
+    that matches it gives it its class (the rule's `class` value, or its name), cut to the class buffer.
+    `pre`, `rule`, `post` split the compilation of that file's section. -/
+theorem C11_session_first_match (hasXq : Bool) (lim : Limits) (hacc : 0 < lim.account) (hx : hasXq = true)
+    (cfg : Config) (segs : List Seg) (s' : State) (live' : Config)
+    (hrun : runSession (applyConfig { hasXq := hasXq, hasClass := true, lim := lim } {} cfg true) segs = .ok (s', live'))
+    (st : Static) (c c' : Ctx) (rules' : List Rule) (pre post : List Rule) (rule : Rule)
+    (hsplit : eraseR (compileSec live'.cls) = pre ++ rule :: post)
+    (hpre : ∀ q ∈ pre, ruleMatches c.svcs q c.req = false) (hm : ruleMatches c.svcs rule c.req = true)
+    (h : classRules st s'.rules c = .ok (c', rules')) :
+    c'.req.cls = strlcpyN c.lim.cls (rule.cls.getD rule.name) := by
+  have hr : eraseR s'.rules = pre ++ rule :: post := by
+    rw [← hsplit]; exact C17_rules_from_boot hasXq lim hacc cfg segs s' live' hx hrun
+  unfold eraseR at hr
+  obtain ⟨pre', rest', e1, e2, e3⟩ := List.map_eq_append_iff.mp hr
+  obtain ⟨rule', post', e4, e5, e6⟩ := List.map_eq_cons_iff.mp e3
+  subst e4
+  rw [e1] at h
+  have hpre' : ∀ q ∈ pre', ruleMatches c.svcs q c.req = false := by
+    intro q hq
+    rw [← ruleMatches_kernel]
+    exact hpre _ (by rw [← e2]; exact List.mem_map_of_mem hq)
+  have hm' : ruleMatches c.svcs rule' c.req = true := by
+    rw [← ruleMatches_kernel, e5]; exact hm
+  have := (C11_first_match st pre' post' rule' c c' rules' hpre' hm' h).1
+  rw [this, ← e5]
+  rfl
+
+/-- **the rule table is in name order**: the rules compiled from a file's class section ascend
+    strictly in the case-insensitive order of their names - "first" in `C11_first_match` is first in
+    that order, for every file whose names are C strings -/
+theorem C11_rules_in_name_order (file : List CNode) (h : ∀ n ∈ file, NoNul n.name) :
+    (compileSec (sortSection file)).Pairwise fun a c => Bytes.strcasecmp a.name c.name < 0 := by
+  have hs := (sortSection_sorted_nonul file h).1
+  unfold SecSorted at hs
+  unfold compileSec
+  rw [List.pairwise_map]
+  refine (hs.filter _).imp_of_mem ?_
+  intro a c ha hc hlt
+  have hna : a.isString = false := by simpa using (List.mem_filter.mp ha).2
+  show Bytes.strcasecmp (compileRule a).name (compileRule c).name < 0
+  unfold cnodeLt at hlt
+  simp only [hna, Bool.false_and, Bool.and_false, Bool.or_false, decide_eq_true_eq] at hlt
+  exact hlt
 
 end Iauthd.Properties
